@@ -429,4 +429,12 @@ def main(argv=None):
 
 
 if __name__ == "__main__":
-  sys.exit(main())
+  try:
+    rc = main()
+  except SystemExit:
+    raise
+  except BaseException as e:  # a crash of the driver is never a verdict
+    print("INCONCLUSIVE reason=driver-crashed %s: %s" % (type(e).__name__, str(e)[:500]))
+    traceback.print_exc()
+    rc = 2
+  sys.exit(rc)
